@@ -304,7 +304,7 @@ class AuthPolicy(object):
     """
 
     def __init__(self, mode='open', maxdata=4096, accept_sig=None, pubkey='accept', strays=None, tokens=None,
-                 bad_auth_type=None, banner=b'device::ro.product.name=sim;\0', final_maxdata=None):
+                 bad_auth_type=None, banner=b'device::ro.product.name=sim;\0', final_maxdata=None, version=0x01000000):
         self.mode = mode
         self.maxdata = maxdata
         self.final_maxdata = final_maxdata if final_maxdata is not None else maxdata
@@ -314,6 +314,7 @@ class AuthPolicy(object):
         self.tokens = tokens
         self.bad_auth_type = bad_auth_type
         self.banner = banner
+        self.version = version
         self.reset()
 
     def reset(self):
@@ -346,7 +347,7 @@ class AuthPolicy(object):
 
     def on_cnxn(self, dev, h):
         if self.mode == 'open':
-            return self._answer(dev, [wire.frame('CNXN', 0x01000000, self.maxdata, self.banner)])
+            return self._answer(dev, [wire.frame('CNXN', self.version, self.maxdata, self.banner)])
         return self._answer(dev, [self._challenge(dev)])
 
     def on_auth(self, dev, h):
@@ -355,12 +356,12 @@ class AuthPolicy(object):
             self.nsig += 1
             self.sigs.append((i, h['payload'], self.last_token))
             if self.accept_sig(i, h['payload'], self.last_token):
-                return self._answer(dev, [wire.frame('CNXN', 0x01000000, self.final_maxdata, self.banner)])
+                return self._answer(dev, [wire.frame('CNXN', self.version, self.final_maxdata, self.banner)])
             return self._answer(dev, [self._challenge(dev)])
         if h['a0'] == 3:
             self.pubkeys.append(h['payload'])
             if self.pubkey == 'accept':
-                return self._answer(dev, [wire.frame('CNXN', 0x01000000, self.final_maxdata, self.banner)])
+                return self._answer(dev, [wire.frame('CNXN', self.version, self.final_maxdata, self.banner)])
             return self._answer(dev, [])
         dev.env_note('AUTH type %d' % h['a0'])
         return []
@@ -382,12 +383,16 @@ class SimDevice(object):
         self.default_script = [b'']
         self.reorder = False         # allow service WRITEs to overtake OKAYs of later host WRITEs
         self.clse_before_ack = False
+        self.eager = False           # put everything that is ready on the wire as soon as a host packet was processed
+        self.hold = set()            # local ids whose output is withheld (a slow service); release_all() lets it go
         self.session_reset()
         self.env_errors = []
         self.notes = []
         self.epoch = 0
         self.nframes = 0
         self.refuse_open = lambda dest: False
+        self.held_streams = []
+        self.hold_next_open = False
         self.syms_of = None          # callable(payload) -> list of symbol codes (model-scale scenarios)
 
     # -- bookkeeping
@@ -408,6 +413,9 @@ class SimDevice(object):
     # -- transport side
     def on_connect(self):
         self.session_reset()
+        self.hold = set()
+        self.held_streams = []
+        self.hold_next_open = False
         self.auth.reset()
         self.connected = True
         self.epoch += 1
@@ -420,6 +428,9 @@ class SimDevice(object):
         """Bytes written by the host."""
         for h in self.parser.feed(data):
             self.on_packet(h)
+            if self.eager:
+                while self.pump():
+                    pass
 
     def put(self, fr, **meta):
         self.nframes += 1
@@ -430,7 +441,8 @@ class SimDevice(object):
         h = wire.parse_header(fr[:24])
         meta['pk'] = dict(cmd=wire.WORD_CMD.get(h['cmdw'], '?'), a0=wire.limbs(h['a0']), a1=wire.limbs(h['a1']), n=self.nframes,
                           plen=h['len'], unit=meta.get('unit', 0), syms=self.syms_of(fr[24:]) if self.syms_of else [])
-        self.rec.ev('dv', t='dev', **meta['pk'])
+        meta['payload'] = bytes(fr[24:])
+        self.rec.ev('dv', t='dev', _payload=meta['payload'], **meta['pk'])
 
     # -- protocol
     def on_packet(self, h):
@@ -450,6 +462,13 @@ class SimDevice(object):
             st = Stream(lid, rid, dest)
             self.streams[lid] = st
             self.all_streams.append(st)
+            if self.held_streams and not self.hold_next_open:
+                self.hold = set()           # the slow service finally answers: its late packets precede the new stream's
+                self.held_streams = []
+            if self.hold_next_open:
+                self.hold_next_open = False
+                self.hold.add(lid)
+                self.held_streams.append(st)
             if self.refuse_open(dest):
                 st.acks.append(('CLSE0',))
                 st.dev_closed = True
@@ -491,6 +510,8 @@ class SimDevice(object):
     def ready(self):
         out = []
         for st in self.all_streams:
+            if st.lid in self.hold and st in self.held_streams:
+                continue
             if st.acks:
                 out.append((st.lid, 'ack', id(st)))
                 # adbd acknowledges host WRITE k before the service can answer it; a reply to WRITE k may
